@@ -1,0 +1,15 @@
+//go:build verif
+
+package sql
+
+import "github.com/goghcrow/yae/val"
+
+// LogicalPrecHook exposes the precedence table of the logical connectives, keyed by the
+// function value (verification harness hook).
+func LogicalPrecHook() map[*val.Val]float32 {
+	m := make(map[*val.Val]float32, len(logicalFunPrecTbl))
+	for f, bp := range logicalFunPrecTbl {
+		m[f] = float32(bp)
+	}
+	return m
+}
